@@ -549,6 +549,13 @@ func (p *Prog) modset(e *Engine, fn *ssa.Function) map[string]bool {
 	visit := func(f *ssa.Function) {
 		for _, b := range f.Blocks {
 			for _, in := range b.Instrs {
+				if s, ok := in.(*ssa.Store); ok && f == fn {
+					// a store into a variable the callee itself allocates (a parameter or local that escapes into a
+					// closure lives in a fresh box): no location that existed before the call changes
+					if a, ok := s.Addr.(*ssa.Alloc); ok && a.Heap && a.Parent() == fn {
+						continue
+					}
+				}
 				e.instrEffects(in, func(*ssa.Alloc) {}, m, func(g *ssa.Function) { calls = append(calls, g) }, func() {})
 				// frames of assumed contracts (library functions, interface methods) used inside the body: what
 				// they modify (e.g. the read cursor of a stream) is modified by this function too
